@@ -315,6 +315,22 @@ def C16(rep, prog, tier):
     part.check_all(rep, ex, only=("inference.consistency_sat.consistency",))
 
 
+def C17(rep, prog, tier):
+    rep.explanation = ("C17 (four clauses): CREP.rank (rank = Σ impacts of the conditionals the world falsifies), index discipline "
+                       "between impacts, η names and conditionals, CHECK.three-way and objectives at the constructor, C.relations / "
+                       "C.empty-minimum of the constraint system it solves. Pareto minimality, termination of the front enumeration and "
+                       "the relation to c-inference are not decided")
+    ex = Explorer(prog, rep)
+    for cls in (preocf.CR, preocf.PO):
+        preocf.crep_rank(rep, ex, cls)
+    preocf.rank_cache(rep, ex, preocf.CR, "c_vec2ocf", rule="CREP.cache")
+    preocf.crep_init(rep, ex)
+    cinf.encoding_relation(rep, ex)
+    cinf.key_discipline(rep, ex)
+    cinf.minima_encoding(rep, ex)
+    preocf.world_literals(rep, ex)
+
+
 def C18(rep, prog, tier):
     rep.explanation = ("C18: RANK.min (accumulator update table, scope of the satisfaction test), ACCEPT.decision, MARG.bits, "
                        "COND.filter, TPO.order, WORLD.literals on the ranking-function operations")
@@ -338,4 +354,4 @@ def C06(rep, prog, tier):
     wrappers.shortcut_dominance(rep, ex)
 
 
-CHECKS = {"C01": C01, "C02": C02, "C03": C03, "C04": C04, "C05": C05, "C06": C06, "C07": C07, "C09": C09, "C11": C11, "C12": C12, "C13": C13, "C14": C14, "C16": C16, "C18": C18, "C15": C15}
+CHECKS = {"C01": C01, "C02": C02, "C03": C03, "C04": C04, "C05": C05, "C06": C06, "C07": C07, "C09": C09, "C11": C11, "C12": C12, "C13": C13, "C14": C14, "C16": C16, "C17": C17, "C18": C18, "C15": C15}
